@@ -76,6 +76,43 @@ async fn late_link(idx: usize) -> Value {
     json!({"adversarial": "late_link", "link_ok": link_ok, "p1_resolved_at_link": p1_resolved_at_link, "p1_gone": gone, "p2_exit_notices": p2_notices.len(), "notes": notes})
 }
 
+/// adversarial schedule from the race model: while a failed process is on its way out (after its failure, before its removal from
+/// the tables) another task moves its name to a live process and registers a further name for the dying one; in the end the
+/// moved name must still resolve to the live process and the further name must not resolve at all
+async fn name_move(idx: usize) -> Value {
+    let sched = AsyncSched::install();
+    sched.only(&["proc."]);
+    sched.set_free_run(true);
+    let mut node = Node::new(format!("nm{}@127.0.0.1", idx % 5 + 1), COOKIE);
+    if node.start(0).await.is_err() {
+        return json!({"tool_error": "node start"});
+    }
+    let node = Arc::new(node);
+    let log = Arc::new(Mutex::new(Vec::new()));
+    let p = node.spawn(Recorder { tag: "p".into(), log: log.clone() }).await.expect("spawn");
+    let q = node.spawn(Recorder { tag: "q".into(), log: log.clone() }).await.expect("spawn");
+    let _ = node.register(Atom::new("svc"), p.clone()).await;
+    let actor = format!("proc:{}", p.id);
+    sched.set_free_run(false);
+    let _ = node.send(&p, a("die")).await;
+    let mut notes: Vec<String> = Vec::new();
+    if sched.wait_parked(&actor, Duration::from_millis(800)).await.map(|x| x.0) != Some("proc.failed".into()) {
+        notes.push("p did not reach proc.failed".into());
+    }
+    // p is parked right after its failure: the name is moved to q, and a second name is given to p
+    let unreg = node.unregister(&Atom::new("svc")).await.is_ok();
+    let rereg = node.register(Atom::new("svc"), q.clone()).await.is_ok();
+    let extra = node.register(Atom::new("late"), p.clone()).await.is_ok();
+    sched.set_free_run(true);
+    tokio::time::sleep(Duration::from_millis(60)).await;
+    let p_gone = node.registry().get(&p).await.is_none();
+    let svc = node.whereis(&Atom::new("svc")).await;
+    let late = node.whereis(&Atom::new("late")).await;
+    sched.uninstall();
+    json!({"adversarial": "name_move", "unregister_ok": unreg, "register_to_q_ok": rereg, "late_register_ok": extra, "p_gone": p_gone,
+           "svc_resolves_to_q": svc.as_ref() == Some(&q), "svc_resolves": svc.is_some(), "late_resolves": late.is_some(), "notes": notes})
+}
+
 /// a watcher that stalls in its handler on the message `block` until the gate opens (everything else is recorded)
 struct Gated {
     log: Arc<Mutex<Vec<Value>>>,
@@ -149,6 +186,9 @@ async fn full_mailbox(idx: usize) -> Value {
 }
 
 async fn run_one(sc: &Value, idx: usize) -> Value {
+    if sc["adversarial"].as_str() == Some("name_move") {
+        return name_move(idx).await;
+    }
     if sc["adversarial"].as_str() == Some("full_mailbox") {
         return full_mailbox(idx).await;
     }
